@@ -1,7 +1,7 @@
 (* Entry.v — dispatch from a harness case (an S-expression) to a model function; result as an S-expression. *)
 From Coq Require Import List Arith NArith ZArith Bool Strings.Byte.
 From Coq Require Strings.String.
-From DX Require Import Bytes Sx Res Codec Text Json Sections Header Stream Reader Writer Wire Hunks Dom DomWire DomOps LexEntry.
+From DX Require Import Bytes Sx Res Codec Text Json Sections Header Stream Reader Writer Wire Hunks Dom DomWire DomOps LexEntry SpecWire.
 Import ListNotations.
 Import String.StringSyntax.
 Local Open Scope string_scope.
@@ -270,7 +270,7 @@ Definition table : list (String.string * (list sx -> sx)) :=
   [ ("split_lines", run_split_lines); ("codec", run_codec); ("newline_for", run_newline_for); ("guess", run_guess);
     ("read", run_read); ("header", run_header); ("write", run_write); ("write_read", run_write_read); ("json_dump", run_json_dump); ("hunks", run_hunks);
     ("dom_write", run_dom_write); ("dom_read", run_dom_read); ("dom_roundtrip", run_dom_roundtrip);
-    ("dom_reserialise", run_dom_reserialise); ("stats", run_stats); ("dom_ops", run_dom_ops); ("lex", run_lex) ].
+    ("dom_reserialise", run_dom_reserialise); ("stats", run_stats); ("dom_ops", run_dom_ops); ("lex", run_lex); ("spec_file", run_spec_file) ].
 
 Fixpoint dispatch (t : list (String.string * (list sx -> sx))) (name : bytes) (args : list sx) : sx :=
   match t with
